@@ -6,6 +6,7 @@ import (
 	"os"
 	"path/filepath"
 	"sync/atomic"
+	"syscall"
 
 	"github.com/folbricht/desync"
 
@@ -138,6 +139,72 @@ func c17Cancel(a vh.Args, r *vh.Result, rng *vh.Rand) error {
 						if err := c17CancelOne(a, r, c); err != nil {
 							return err
 						}
+					}
+				}
+			}
+		}
+	}
+	return nil
+}
+
+// c17Resource: VerifyIndex on an altered (and on an intact) file while no file handle can be
+// opened (RLIMIT_NOFILE soft limit 0 around the call), on a missing file, and with the empty
+// index against non-empty / missing files: it must not return nil unless the file matches.
+func c17Resource(a vh.Args, r *vh.Result, rng *vh.Rand) error {
+	desync.Digest = desync.SHA256{}
+	name := filepath.Join(a.Work, "res.file")
+	for _, nchunks := range []int{0, 1, 40} {
+		blob := rng.Bytes(nchunks * 16)
+		sizes := make([]int, nchunks)
+		for i := range sizes {
+			sizes[i] = 16
+		}
+		idx := buildIndex(blob, sizes)
+		for _, n := range []int{1, 3, 64} {
+			type variant struct {
+				tag   string
+				file  []byte
+				exist bool
+			}
+			vars := []variant{{"missing", nil, false}}
+			if nchunks > 0 {
+				alt := append([]byte{}, blob...)
+				alt[rng.Intn(len(alt))] ^= 0x10
+				vars = append(vars, variant{"altered", alt, true})
+			} else {
+				vars = append(vars, variant{"nonempty-vs-empty-index", rng.Bytes(1 + rng.Intn(3000)), true})
+			}
+			for _, v := range vars {
+				for _, nofd := range []bool{false, true} {
+					os.Remove(name)
+					if v.exist {
+						if err := os.WriteFile(name, v.file, 0644); err != nil {
+							return err
+						}
+					}
+					var old syscall.Rlimit
+					if nofd {
+						if err := syscall.Getrlimit(syscall.RLIMIT_NOFILE, &old); err != nil {
+							return err
+						}
+						lim := old
+						lim.Cur = 0
+						if err := syscall.Setrlimit(syscall.RLIMIT_NOFILE, &lim); err != nil {
+							return err
+						}
+					}
+					err := desync.VerifyIndex(context.Background(), name, idx, n, desync.NullProgressBar{})
+					if nofd {
+						syscall.Setrlimit(syscall.RLIMIT_NOFILE, &old)
+					}
+					key := fmt.Sprintf("resource|%s|%d|%d|%v", v.tag, nchunks, n, nofd)
+					r.Count(key, true)
+					r.Dist("resource:" + v.tag)
+					if err == nil {
+						r.Fail("predicate", "resource/accepts-"+v.tag,
+							fmt.Sprintf("VerifyIndex returned nil for a %s file (index of %d chunks, n=%d, no file handles available: %v)", v.tag, nchunks, n, nofd),
+							map[string]interface{}{"kind": "resource", "variant": v.tag, "chunks": nchunks, "n": n, "no_file_handles": nofd})
+						return nil
 					}
 				}
 			}
